@@ -93,7 +93,10 @@ pub const GROUPS: [&str; 10] = ["scalars", "transactions", "payloads", "updates"
 pub fn run_group(ctx: &mut Tasks, group: &str) {
     match group {
         "scalars" => scalars(ctx),
-        "transactions" => transactions(ctx),
+        "transactions" => {
+            transactions(ctx);
+            long_fields(ctx);
+        }
         "payloads" => payloads(ctx),
         "updates" => updates(ctx),
         "credentials" => crate::c05b::credentials(ctx),
@@ -205,6 +208,62 @@ fn transactions(ctx: &mut Tasks) {
         BlockItem::AccountTransactionV1(AccountTransactionV1 { signatures: TransactionSignaturesV1 { sender: sig_map(&[(0, &[0])]), sponsor: Some(sig_map(&[(0, &[1])])) }, header: h1(Some(addr(3)), psize(&memo)), payload: memo.clone() }),
         BlockItem::UpdateInstruction(update_instruction(UpdatePayload::EuroPerEnergy(ExchangeRate::new(1, 50000).unwrap()))),
     ]);
+}
+
+/// Round trip only (no neighbourhood): encoding is deterministic, decodes to an equal value and is
+/// consumed exactly; decoding `encoding || encoding-of-a-second-value` yields both.
+fn round_trip_only<T: Serial + Deserial + Debug>(ctx: &mut Ctx, name: &str, what: &str, v: &T) {
+    ctx.evals += 1;
+    let e = to_bytes(v);
+    let w = serde_json::json!({"type": name, "value": what, "encoding_len": e.len()});
+    match dec_base::<T>(&e) {
+        None => ctx.violation("own-encoding-does-not-decode", name, e.len(), w, serde_json::json!({})),
+        Some((back, n)) => {
+            ctx.traces += 1;
+            if n != e.len() {
+                ctx.violation("decoder-does-not-consume-exactly-the-encoding", name, e.len(), w, serde_json::json!({"consumed": n, "length": e.len()}));
+            } else if to_bytes(&back) != e {
+                ctx.violation("round-trip-changes-value", name, e.len(), w, serde_json::json!({"re_encoding_len": to_bytes(&back).len()}));
+            } else {
+                // followed by more data: exactly the encoding is consumed
+                let mut two = e.clone();
+                two.extend_from_slice(&[0xEE; 7]);
+                if dec_base::<T>(&two).map(|(_, n)| n) != Some(e.len()) {
+                    ctx.violation("decoder-does-not-consume-exactly-the-encoding", name, e.len(), w, serde_json::json!({"followed_by_data": true}));
+                } else {
+                    ctx.outcome("long value: round trip ok", 1);
+                }
+            }
+        }
+    }
+}
+
+/// Byte fields around the pre-allocation bound of the shared readers (4096) and its multiples.
+fn long_fields(ctx: &mut Tasks) {
+    ctx.add(|ctx: &mut Ctx| {
+        for len in [4095usize, 4096, 4097, 8191, 8192, 8193, 12287, 12288, 12289, 16384, 65536] {
+            let bytes: Vec<u8> = (0..len).map(|i| (i % 251) as u8 + 1).collect();
+            let what = format!("{len} bytes");
+            let source = ModuleSource::from(bytes.clone());
+            round_trip_only(ctx, "ModuleSource", &what, &source);
+            let module = WasmModule { version: WasmVersion::V1, source };
+            round_trip_only(ctx, "WasmModule", &what, &module);
+            let payload = Payload::DeployModule { module };
+            round_trip_only(ctx, "Payload", &what, &payload);
+            // payloads whose *encoded* size is exactly `len` (the transaction reader takes it whole)
+            for plen in [len, len.saturating_sub(9)] {
+                let src = ModuleSource::from(bytes[..plen.min(bytes.len())].to_vec());
+                let enc = Payload::DeployModule { module: WasmModule { version: WasmVersion::V0, source: src } }.encode();
+                let n = to_bytes(&enc).len() as u32;
+                round_trip_only(ctx, "AccountTransaction<EncodedPayload>", &format!("payload of {n} bytes"), &AccountTransaction { signature: sig_map(&[(0, &[0])]), header: header(n), payload: enc.clone() });
+                round_trip_only(ctx, "BlockItem<EncodedPayload>", &format!("payload of {n} bytes"), &BlockItem::AccountTransaction(AccountTransaction { signature: sig_map(&[(0, &[0])]), header: header(n), payload: enc }));
+            }
+            let text = "s".repeat(len);
+            round_trip_only(ctx, "String", &what, &text);
+            round_trip_only(ctx, "Vec<u8>", &what, &bytes);
+            round_trip_only(ctx, "ProtocolUpdate", &what, &ProtocolUpdate { message: text.clone(), specification_url: "u".repeat(len.min(4096)), specification_hash: hashes::Hash::from([7u8; 32]), specification_auxiliary_data: bytes.clone() });
+        }
+    });
 }
 
 pub fn baker_keys(seed: u64) -> BakerKeyPairs { BakerKeyPairs::generate(&mut rng(seed, 500)) }
